@@ -99,7 +99,11 @@ def observe(backend_cls, pipeline, user=True, first_format=None):
     post = [int(x) for x in re.findall(r"P(\d+)\(", text)][::-1]      # innermost wrapper ran first
     fins = [int(x) for x in re.findall(r"F(\d+)<", text)][::-1]
     lp = b.last_processing_pipeline
-    return {"items": items, "post": post, "fins": fins, "vars": {k: v for k, v in lp.vars.items() if k in ("v", "w")},
+    # finalizers run once on the whole list - also when the list is empty
+    out0 = b.convert(SigmaCollection.from_dicts([]))
+    text0 = out0 if isinstance(out0, str) else ";".join(map(str, out0))
+    fins0 = [int(x) for x in re.findall(r"F(\d+)<", text0)][::-1]
+    return {"items": items, "post": post, "fins": fins, "fins_empty": fins0, "text_empty": text0, "vars": {k: v for k, v in lp.vars.items() if k in ("v", "w")},
             "applied": sorted(x for x in lp.applied_ids if not x.startswith("s")), "text": text}
 
 
@@ -176,6 +180,9 @@ def judge(case, impl, reply):
                                          f"{[(p['name'], p['priority'], p['items'], p['post'], p['fins'], p['vars']) for p in case['pipes']]}: "
                                          f"observed {({k: got[k] for k in which})} but composition is defined to give {({k: want[k] for k in which})}; output {obs['text']!r}"),
                            nt, key, tags=tags)
+        if obs.get("fins_empty") != want["fins"]:
+            return Verdict("violation", (f"{label}{case['op']}: converting an empty collection gives {obs.get('text_empty')!r}: finalizers {obs.get('fins_empty')} ran, "
+                                         f"but the composed pipeline's finalizers {want['fins']} run once on the whole (here empty) list"), nt, key, tags=tags)
         if obs["applied"] != sorted([f"i{k}" for k in want["items"]] + [f"q{k}" for k in want["post"]]):
             return Verdict("violation", f"{label}applied item identifiers {obs['applied']} do not match the composed items {want['items']} / {want['post']}", nt, key, tags=tags)
     return Verdict("ok", "", nt, key, tags=tags)
